@@ -24,7 +24,9 @@
 (***************************************************************************)
 EXTENDS Integers, Sequences, FiniteSets, TLC, SequencesExt, FiniteSetsExt, Json, IOUtils
 
-CONSTANTS Seeds, MaxOps, SetOrder, Timestamps, ComponentMemo
+CONSTANTS Seeds, MaxOps, SetOrder, Timestamps, ComponentMemo,
+          FailureCorrupts     \* an evaluation that FAILS (a formula outside its domain) leaves something behind that later
+                              \* evaluations / writes of that model see (not the tree as it is)
 
 \* comp: a component object the model shares with other models (0: none), h: the step it asks that component to be differentiated with
 Models == { [id |-> 1, declared |-> <<2>>, filled |-> {1, 3, 4}, excel |-> FALSE, comp |-> 0, h |-> 0],     \* under-specified EAM: zero-filling needed
@@ -66,6 +68,14 @@ Write(i) == /\ n < MaxOps /\ built[i] # <<>>
                         out |-> IF ModelOf(i).excel /\ Timestamps THEN built[i] \o <<100 + clock>> ELSE built[i]]
             /\ n' = n + 1 /\ clock' = clock + 1 /\ UNCHANGED <<seed, built, memo>>
 
+\* one of the model's potentials is evaluated outside the domain of its formula: the call raises, nothing else happens.
+\* (model 2 has such a potential: custom forms, among them mutually recursive ones)
+CanFail(i) == i = 2
+FailedEval(i) == /\ n < MaxOps /\ built[i] # <<>> /\ CanFail(i)
+                 /\ built' = IF FailureCorrupts THEN [built EXCEPT ![i] = Append(@, 999)] ELSE built
+                 /\ last' = [op |-> "fail", id |-> i, out |-> <<>>]
+                 /\ n' = n + 1 /\ clock' = clock + 1 /\ UNCHANGED <<seed, memo>>
+
 Eval(i) == /\ n < MaxOps /\ built[i] # <<>>
            /\ last' = [op |-> "eval", id |-> i, out |-> <<>>]
            /\ n' = n + 1 /\ clock' = clock + 1 /\ UNCHANGED <<seed, built, memo>>
@@ -75,7 +85,7 @@ NewProcess == /\ n < MaxOps /\ seed' \in Seeds /\ built' = [i \in Ids |-> <<>>]
               /\ last' = [op |-> "none", id |-> 0, out |-> <<>>] /\ n' = n + 1 /\ clock' = clock + 1
               /\ memo' = [c \in Comps |-> 0]
 
-Next == (\E i \in Ids : Build(i) \/ Write(i) \/ Eval(i)) \/ NewProcess
+Next == (\E i \in Ids : Build(i) \/ Write(i) \/ Eval(i) \/ FailedEval(i)) \/ NewProcess
 Spec == Init /\ [][Next]_vars
 
 \* byte-identical output (the property)
@@ -86,7 +96,7 @@ Content(o, mm) == IF mm.excel THEN SubSeq(o, 1, Len(CanonicalOrder(mm))) ELSE o
 ContentIsFunctionOfModel == (last.op = "write") => Content(last.out, ModelOf(last.id)) = CanonicalOrder(ModelOf(last.id))
 
 \* histories for the replay
-Ops == {[op |-> o, id |-> i] : o \in {"build", "write", "eval"}, i \in Ids}
+Ops == {[op |-> o, id |-> i] : o \in {"build", "write", "eval"}, i \in Ids} \cup {[op |-> "fail", id |-> i] : i \in {j \in Ids : CanFail(j)}}
 Histories == UNION {[1..k -> Ops] : k \in 1..MaxOps}
 Emit == IF "EMIT" \in DOMAIN IOEnv /\ IOEnv.EMIT = "1"
         THEN ndJsonSerialize(IOEnv.VERIF_OUT \o "/histories.ndjson", SetToSeq(Histories))
